@@ -1,6 +1,8 @@
 import XmppModel.Model.Header
 import XmppModel.Model.StreamNeg
 import XmppModel.Model.Bind
+import XmppModel.Model.HeaderSend
+import XmppModel.Model.Jid
 import XmppModel.Lemmas.Header
 import XmppModel.Generated.C12
 /-!
@@ -734,5 +736,105 @@ theorem C12_bind_bad_request_address (remote reqId : String) (reqRes : Option St
   simp [server, h]
 
 end bind
+
+/-! ### Round D: the header does not depend on what happened to other sessions -/
+
+section SendHistory
+open XmppModel.Header XmppModel.HeaderSend
+
+/-- **history independence of `Send`**: after ANY history of calls (other arguments, failed or
+successful writes) a call whose write succeeds hands the connection exactly its own header — one
+stream-open element — and a peer reading those bytes recovers the arguments of THAT call. -/
+theorem C12_send_history_independent (hist : List Call) (c : Call) (hw : c.writeOk = true) (st : Str) :
+    run true st (hist ++ [c]) = run true st hist ++ [some (printHeader c.args)] ∧
+    readHeader (printHeader c.args) = some (expected c.args) := by
+  refine ⟨?_, C12_header_roundtrip c.args⟩
+  rw [run_perCall, run_perCall, List.map_append]
+  simp [hw]
+
+example : run true [] [⟨⟨false, true, [], "victim.example".toList, "a.example".toList, "de".toList⟩, false⟩,
+    ⟨⟨false, false, [], "example.net".toList, [], []⟩, true⟩] =
+    [none, some (printHeader ⟨false, false, [], "example.net".toList, [], []⟩)] := by
+  rw [run_perCall]; rfl
+
+set_option maxRecDepth 100000 in
+/-- witness that the buffer per call is what makes it true: with one recycled buffer that is emptied
+only after a successful write, a failed call followed by a successful one sends BOTH headers, and
+the peer reads the addresses of the failed (other) session -/
+theorem C12_send_recycled_buffer_fails :
+    ∃ a b : HdrArgs, ∃ sent,
+      run false [] [⟨a, false⟩, ⟨b, true⟩] = [none, some sent] ∧
+      sent = printHeader a ++ printHeader b ∧
+      readHeader sent = some (expected a) ∧ readHeader sent ≠ some (expected b) :=
+  ⟨⟨false, true, [], "victim.example".toList, "a.example".toList, "de".toList⟩,
+   ⟨false, false, [], "example.net".toList, [], []⟩, _, rfl, rfl, by decide, by decide⟩
+
+/-- regenerated by running REAL sessions: after each history (another session whose first / second
+write fails, whose connection takes ten bytes, on the other framing and role, cancelled,
+successful) a session of either role and framing writes byte for byte what it writes alone -/
+theorem C12_gen_send_history_probe :
+    Generated.C12.sendHistoryProbe = some (["wf1", "wf2", "wfb", "wfx", "ctx", "ok"].flatMap fun h =>
+      [false, true].flatMap fun ws => [false, true].map fun recv => (h, ws, recv, "same")) := by decide
+
+end SendHistory
+
+/-! ### Round D: the address comparison behind every header check -/
+
+section AddressCompare
+open XmppModel.Jid
+
+/-- `negotiator.go` compares the addresses of a header with the established ones with `JID.Equal`,
+and the model of the negotiation (`originOK`, `locationOK`, `peerOK`) compares canonical strings.
+This is the bridge: on the packed representation (`data`, `locallen`, `domainlen`) `Equal` holds
+iff localpart, domainpart and resourcepart are the same octets — in particular two addresses made
+of the same octets cut at different places are different. -/
+theorem C12_address_compare_exact (l d r l' d' r' : Bytes) :
+    (XmppModel.Jid.mk l d r).equal (XmppModel.Jid.mk l' d' r') = true ↔ (l = l' ∧ d = d' ∧ r = r') := by
+  constructor
+  · intro h
+    simp only [Jid.equal, XmppModel.Jid.mk, Bool.and_eq_true, beq_iff_eq] at h
+    obtain ⟨⟨h1, h2⟩, h3⟩ := h
+    rw [List.append_assoc, List.append_assoc] at h1
+    obtain ⟨e1, h1'⟩ := List.append_inj h1 h2
+    obtain ⟨e2, e3⟩ := List.append_inj h1' h3
+    exact ⟨e1, e2, e3⟩
+  · rintro ⟨rfl, rfl, rfl⟩
+    simp [Jid.equal]
+
+example : (XmppModel.Jid.mk [0x61] [0x62, 0x63] []).equal (XmppModel.Jid.mk [0x61] [0x62] [0x63]) = false := by decide
+
+/-- a comparison of the octets and the localpart length alone -/
+def equalDataLocal (a b : Jid) : Bool := a.data == b.data && a.ll == b.ll
+
+/-- witness that BOTH lengths are needed: `a@bc` and `a@b/c` have the same octets and the same
+localpart length, are well-formed, print differently — and the weaker comparison calls them equal -/
+theorem C12_address_compare_needs_domain_length :
+    ∃ a b : Jid, a.WF ∧ b.WF ∧ equalDataLocal a b = true ∧ a.equal b = false ∧ a.toString ≠ b.toString :=
+  ⟨XmppModel.Jid.mk [0x61] [0x62, 0x63] [], XmppModel.Jid.mk [0x61] [0x62] [0x63],
+    by decide, by decide, by decide, by decide, by decide⟩
+
+set_option maxRecDepth 100000 in
+/-- regenerated by running the REAL `jid.JID.Equal` on ALL pairs of a universe of addresses that holds
+the established addresses of the generated sessions, their near misses (the same octets cut
+differently into local / domain / resource, one octet less or more, bare vs full) and plain ones:
+the result is equality of the three parts, and the model's `Equal` says the same on every pair -/
+theorem C12_gen_jid_equal_probe :
+    ∃ u t, Generated.C12.jidEqualUniverse = some u ∧ Generated.C12.jidEqualTable = some t ∧ u.length ≥ 30 ∧
+      t = u.map (fun a => u.map fun b => decide (a = b)) ∧
+      t = u.map (fun a => u.map fun b =>
+        (XmppModel.Jid.mk a.1 a.2.1 a.2.2).equal (XmppModel.Jid.mk b.1 b.2.1 b.2.2)) :=
+  ⟨_, _, rfl, rfl, by decide, by decide, by decide⟩
+
+set_option maxRecDepth 100000 in
+/-- the universe is not vacuous: it holds pairs of different addresses with the same octets and the
+same localpart length (only the domain / resource boundary differs), and pairs where only the
+local / domain boundary differs -/
+theorem C12_jid_equal_probe_has_recut_pairs :
+    ∃ u, Generated.C12.jidEqualUniverse = some u ∧
+      (u.any fun a => u.any fun b => decide (a ≠ b) && a.1 == b.1 && (a.2.1 ++ a.2.2 == b.2.1 ++ b.2.2)) = true ∧
+      (u.any fun a => u.any fun b => decide (a ≠ b) && a.2.2 == b.2.2 && (a.1 ++ a.2.1 == b.1 ++ b.2.1)) = true :=
+  ⟨_, rfl, by decide, by decide⟩
+
+end AddressCompare
 
 end XmppModel.Props.C12
